@@ -242,6 +242,7 @@ func runSyncer(prop, tier string, r *rng) {
 		// what the sync loop hands to the store must be what ends up stored (several pending ranges, a busy flush loop)
 		burstCase(prop, []int{15, 40, 41, 42})
 		burstCase(prop, nil) // the tail-above-head scenarios
+		startWindowCase(prop)
 		for _, b := range []int{1, 2} {
 			slowStoreDelay, slowStoreBatch = 4*time.Millisecond, b
 			prefixOfRangeCase(prop, 10, 20, 3)
@@ -575,5 +576,58 @@ func tailAboveCase(prop string, storeTo, sfh, first, second int) {
 	_ = run.s.Stop(ctx)
 	c2, cancel3 := context.WithTimeout(ctx, time.Second)
 	_ = run.st.Stop(c2)
+	cancel3()
+}
+
+// startWindowCase: gossip that arrives while Start has not finished (the verifier is registered, the Syncer is not started
+// yet) and whose validation context ends in that window; and gossip after a Start that FAILED. Nothing has looked at such a
+// header: it must be refused with an error, never accepted.
+func startWindowCase(prop string) {
+	ctx := context.Background()
+	// (a) slow Start: the head request of Start hangs
+	run := newSyncRun(10)
+	run.s.VerifSetPolicy(100*time.Hour, time.Second, time.Millisecond) // the stored head is not recent: Start asks the network
+	run.g.headGate = make(chan struct{})
+	started := make(chan error, 1)
+	go func() {
+		sctx, cancel := context.WithTimeout(ctx, 5*time.Second)
+		defer cancel()
+		started <- run.s.Start(sctx)
+	}()
+	for i := 0; i < 500 && run.sub.verifier == nil; i++ {
+		time.Sleep(time.Millisecond)
+	}
+	slow := "noverifier"
+	if run.sub.verifier != nil {
+		c := run.chain[29]
+		forged := &vhdr.Header{Chain: c.Chain, H: c.H, T: c.T, Prev: c.Prev, Salt: 5, Forged: true}
+		vctx, vcancel := context.WithTimeout(ctx, 100*time.Millisecond)
+		slow = map[bool]string{true: "accept", false: "refuse"}[run.sub.verifier(vctx, forged) == nil]
+		vcancel()
+	}
+	close(run.g.headGate)
+	<-started
+	_ = run.s.Stop(ctx)
+	c2, cancel2 := context.WithTimeout(ctx, time.Second)
+	_ = run.st.Stop(c2)
+	cancel2()
+	// (b) failed Start: empty store, the trusted peers do not answer the head request
+	run2 := newSyncRun(0)
+	run2.g.headFn = func(*vhdr.Header) (*vhdr.Header, error) { return nil, errGetter }
+	sctx, cancel := context.WithTimeout(ctx, 3*time.Second)
+	serr := run2.s.Start(sctx)
+	cancel()
+	after := "noverifier"
+	if run2.sub.verifier != nil {
+		vctx, vcancel := context.WithTimeout(ctx, 100*time.Millisecond)
+		after = map[bool]string{true: "accept", false: "refuse"}[run2.sub.verifier(vctx, run2.chain[4]) == nil]
+		vcancel()
+	}
+	emit("%s kind=startwindow => duringstart=%s start2=%s afterfailedstart=%s", prop, slow, map[bool]string{true: "ok", false: "err"}[serr == nil], after)
+	if serr == nil {
+		_ = run2.s.Stop(ctx)
+	}
+	c3, cancel3 := context.WithTimeout(ctx, time.Second)
+	_ = run2.st.Stop(c3)
 	cancel3()
 }
